@@ -2,5 +2,6 @@
 EXTENDS ValidateSM, Json
 Emit == pc = "done" =>
   PrintT("REPLAY " \o ToJson([group |-> "validate", ds |-> ds, order |-> out,
-                              loss |-> MeanLoss(ds), acc |-> MeanAcc(ds)]))
+                              loss |-> MeanLoss(ds), acc |-> MeanAcc(ds), accfirst |-> MeanAccFirst(ds),
+                              accnum |-> [i \in 1..ds.n |-> AccNum(ds, i)]]))
 =============================================================================
